@@ -100,14 +100,47 @@ def check_moves(ctx, R1='R1', R6='R6'):
             mods = [b for b in ast.walk(src) if isinstance(b, ast.BinOp) and isinstance(b.op, ast.Mod)]
             npmods = [c for c in ast.walk(src) if isinstance(c, ast.Call) and norm_text(c.func).split('.')[-1] in ('mod', 'remainder') and len(c.args) == 2]
             cands = [(b.left, b.right) for b in mods] + [(c.args[0], c.args[1]) for c in npmods]
-            if not cands:
+            def ax(n_):
+                v = it.last.get(id(n_)) or it.value_of(n_)
+                if v is None:
+                    for cand in ast.walk(fi.node):
+                        if type(cand) is type(n_) and norm_text(cand) == norm_text(n_) and it.value_of(cand) is not None:
+                            v = it.last.get(id(cand)) or it.value_of(cand)
+                            break
+                if v is None:
+                    return None
+                if v.axis is not None:
+                    return v.axis
+                if v.unpack_n == 3:
+                    return v.unpack_pos
+                if v.shape_of and v.shape_of[0] and v.shape_of[0][0] == 'd' and v.shape_of[0][1:].isdigit():
+                    return int(v.shape_of[0][1:])
+                return None
+            tup = src if isinstance(src, ast.Tuple) else (src.args[0] if isinstance(src, ast.Call) and norm_text(src.func) == 'tuple' and src.args and isinstance(src.args[0], ast.Tuple) else None)
+            if tup is not None and len(tup.elts) == 3 and all(isinstance(e_, ast.BinOp) and isinstance(e_.op, ast.Mod) for e_ in tup.elts):
+                # per-axis form (i % ni, j % nj, k % nk)
+                bad, unk = [], []
+                for k_, e_ in enumerate(tup.elts):
+                    la, ra = ax(e_.left), ax(e_.right)
+                    if la is None or ra is None:
+                        unk.append(k_)
+                    elif la != k_ or ra != k_:
+                        bad.append(f'component {k_} is `{norm_text(e_)}` (voxel axis {la}, grid size of axis {ra})')
+                if bad:
+                    ok, msg = False, 'neighbour voxels are wrapped with the grid size of another axis: ' + '; '.join(bad)
+                elif unk:
+                    ok, msg = None, 'axes of the per-axis wrap not derivable'
+                else:
+                    ok, msg = True, 'every axis wrapped with its own grid size'
+                cands = []
+            elif not cands:
                 ok, msg = False, 'the neighbour index is not reduced modulo the grid shape: paths cannot cross the periodic cell faces'
             for l, r in cands:
                 rv = it.last.get(id(r)) or it.value_of(r)
                 if rv is None:
                     # expanded copy: look the modulus up by text in the original function
                     for cand in ast.walk(fi.node):
-                        if isinstance(cand, ast.Attribute) and norm_text(cand) == norm_text(r) and it.value_of(cand) is not None:
+                        if isinstance(cand, ast.expr) and type(cand) is type(r) and norm_text(cand) == norm_text(r) and it.value_of(cand) is not None:
                             rv = it.last.get(id(cand)) or it.value_of(cand)
                             break
                 if rv is not None and rv.shapeof is not None:
@@ -117,6 +150,9 @@ def check_moves(ctx, R1='R1', R6='R6'):
                     adds = isinstance(l, ast.BinOp) and isinstance(l.op, ast.Add)
                     if not adds:
                         ok, msg = None, 'wrapped expression is not node + move'
+                elif rv is not None and (rv.lenof is not None or rv.shape_of is not None or rv.ty == 'int'):
+                    ok, msg = False, (f'all three voxel axes are wrapped modulo the single number `{norm_text(r)}` (the size of one axis): on a '
+                                      f'non-cubic grid periodic neighbours of the other axes are lost or bogus edges appear')
                 elif rv is not None:
                     ok, msg = None, f'modulus `{norm_text(r)}` is not the shape of the energy array'
         ctx.ob(R6, fi, orig_src if orig_src is not None else e['node'], ok, msg)
